@@ -377,6 +377,14 @@ pub fn minimise_and_persist(prop_checked: &str, v: &VioRec) -> String {
         eprintln!("simcheck: harness error: violation did not reproduce in the coordinator");
         std::process::exit(2);
     }
+    // the unminimised run, as recorded by this (so far simulation-free) process - its first
+    // simulation, like the first run of a fresh process: the fallback should the minimised file not
+    // reproduce in a fresh process
+    let orig_dec = best_rec.out.decisions.clone();
+    let orig_hash = best_rec.history_hash();
+    let orig_switches = best_rec.out.context_switches;
+    let orig_detail = find_vio(&best_rec, prop, clause).map(|x| x.detail).unwrap_or_default();
+    let orig_excerpt: Vec<String> = best_rec.ev.iter().map(|e| format!("t{} {:?}", e.tid, e.k)).collect();
     // 1. program shrinking
     let mut progress = true;
     while progress && t0.elapsed().as_secs() < 40 && leak_budget_left() {
@@ -463,6 +471,39 @@ pub fn minimise_and_persist(prop_checked: &str, v: &VioRec) -> String {
         Err(_) => format!("/verif/replays/{}-{}.json", prop_checked, v.seed),
     };
     std::fs::write(&path, serde_json::to_string_pretty(&file).unwrap()).expect("write replay");
+    // the file must reproduce in a FRESH process (this one has run thousands of simulations while
+    // shrinking; a changed tree may keep process-wide state)
+    let reproduces = |path: &str| -> bool {
+        std::env::current_exe()
+            .ok()
+            .and_then(|exe| std::process::Command::new(exe).arg("replay").arg(path).output().ok())
+            .map(|o| o.status.code() == Some(1) && String::from_utf8_lossy(&o.stderr).contains("identical"))
+            .unwrap_or(false)
+    };
+    if !reproduces(&path) {
+        let file0 = serde_json::json!({
+            "property": prop_checked,
+            "finding": v.known,
+            "oracle_property": prop,
+            "clause": clause,
+            "detail": orig_detail,
+            "family": v.family,
+            "original_seed": v.seed,
+            "original_run_index": v.run_index,
+            "seed": v.seed,
+            "program": prog0,
+            "decisions": orig_dec,
+            "event_hash": orig_hash,
+            "context_switches": orig_switches,
+            "not_minimised": "the minimised schedule did not reproduce in a fresh process (process-wide state in the code under test?); this is the run as found",
+            "history": orig_excerpt,
+        });
+        std::fs::write(&path, serde_json::to_string_pretty(&file0).unwrap()).expect("write replay");
+        if !reproduces(&path) {
+            eprintln!("simcheck: harness error: the violation {prop}:{clause} (family {}, seed {}) does not reproduce in a fresh process", v.family, v.seed);
+            std::process::exit(2);
+        }
+    }
     path
 }
 
